@@ -1114,6 +1114,54 @@ def work_projtime(chunk):
     return st.d
 
 
+# ---------------------------------------------------------------------------------------------
+# part (g): x, y, z are names of the call frame even when globals of the same name exist
+
+PARAM_GLOBALS = 'x::100;y::200;z::300'
+# (programs after PARAM_GLOBALS, expected value of the last one or None when it must raise); afterwards x, y, z must
+# still be 100, 200, 300.  `{z::x;z*2}(1;2)`: the implementation evaluates this call (it counts the names used);
+# z is then a parameter name that received no argument - still a name of the frame, not the global.
+PARAM_CASES = [
+    (['{x::x+1;x*2}(3)'], 8),
+    (['{y::x+1;y*2}(5;6)'], 12),
+    (['{z::x;z*2}(1;2)'], 2),
+    (['{z::x;z*2}(1;2;3)'], 2),
+    (['g::{z::x;z*2}', 'f::{z+g(x;y)}', 'f(1;2;3)'], 5),
+    (['g::{z::x;z*2}', 'f::{[t];t::g(x;y);t+z}', 'f(1;2;3)'], 5),
+    (['h::{z::x;z%"s"}', 'h(1;2)'], None),
+    (['h::{y::x;boom()}', 'h(1;2)'], None),
+]
+
+
+def work_params(chunk):
+    st = Stats()
+    for progs, want in chunk:
+        k = KlongInterpreter()
+        k['boom'] = lambda: (_ for _ in ()).throw(RuntimeError('boom'))
+        k(PARAM_GLOBALS)
+
+        def seq():
+            r = None
+            for p in progs:
+                r = k(p)
+            return r
+        obs = outcome(seq)
+        glob = outcome(lambda: np.array([k('x'), k('y'), k('z')]))
+        st.d['evals'] += len(progs) + 4
+        st.d['calls'] += 1
+        st.d['states'] += 1
+        st.form('parameter-names-vs-globals')
+        observed = show_outcome(obs) + ' then x,y,z=' + show_outcome(glob)
+        st.d['outcomes'].add(hash(observed))
+        good = (obs[0] == 'exc') if want is None else (obs == ('ok', I(want)))
+        if not (good and glob == ('ok', cn(np.array([100, 200, 300])))):
+            st.violation(PARAM_GLOBALS + ';' + ';'.join(progs), observed,
+                         ('raises' if want is None else 'ok:%d' % want) + ' then x,y,z=ok:[100 200 300]',
+                         dict(part='g', programs=[PARAM_GLOBALS] + progs), snippet_for([PARAM_GLOBALS] + progs),
+                         'assignment-to-a-parameter-name-reaches-outside-the-call-frame')
+    return st.d
+
+
 def k2list(v):
     return np.array(v) if isinstance(v, list) else v
 
@@ -1176,10 +1224,12 @@ def run(cfg):
     t0 = time.time()
     items_b, items_d, items_e, items_f = proj_items(cfg), cond_items(cfg), rec_items(cfg), list(PROJ_TIME)
     part_b, part_d, part_e, part_f = work_proj(items_b), work_cond(items_d), work_rec(items_e), work_projtime(items_f)
+    items_g = list(PARAM_CASES)
+    part_g = work_params(items_g)
     t_inline = round(time.time() - t0, 1)
     for name, items, part, wall in (('a', items_a, pooled['a'], t_pool), ('b', items_b, part_b, t_inline),
                                     ('c', items_c, pooled['c'], t_pool), ('d', items_d, part_d, t_inline),
-                                    ('e', items_e, part_e, t_inline), ('f', items_f, part_f, t_inline)):
+                                    ('e', items_e, part_e, t_inline), ('f', items_f, part_f, t_inline), ('g', items_g, part_g, t_inline)):
         parts[name] = dict(items=len(items), wall_s_shared=wall, evals=part.get('evals', 0),
                            calls=part.get('calls', 0),
                            states=part.get('states', 0), violations=len(part.get('violations', [])),
@@ -1222,6 +1272,7 @@ def run(cfg):
                  % (cfg.pick('bodies <= 1 node at nesting depth 1, 2, 3; bodies with 2 nodes at depth 3 with 1 tuple',
                              'every body at nesting depth 1, 2, 3'),
                     len(cfg.pick(FAULT_TUPLES_Q, FAULT_TUPLES_T)), len(BATTERY)),
+            'g': '%d programs that assign to x, y, z inside functions while globals of those names exist' % len(PARAM_CASES),
             'f': '%d programs in which the fixed argument of a projection is rebound / has a side effect between the steps' % len(PROJ_TIME),
             'e': '%d functions that declare locals and recurse through .f x depths 0..%d, called directly and from another '
                  'function that declares a local of the same name; expected values from a hand-written model'
